@@ -4,7 +4,10 @@ Every case is a package P the implementation produced with to_proto, and P' = to
 (harness/impl/c11.py).  Coq (Corr/C11.v) decides P' = P (the specification, field by field, together with protobuf message
 equality and deterministic-serialisation equality measured by the driver) and compares P' with the model
 Model/C11RoundTrip.v:rt_pkg P (import, slice resolution, export).  Streams: corpus, examples/generators/PDK, the design
-generator, the primitive / external-module parameter space, enumeration tables and names against the live functions.
+generator, the primitive / external-module parameter space, twins (several instances of one external module / primitive
+whose parameter values are equal under Python's == but different in the package: the importer must not let an earlier
+instance decide a later one; coverage classes measured by the driver, fail closed), enumeration tables and names against
+the live functions, pyeq (Model/C11Share.v:py_eq against the live ==).
 """
 import json, os, subprocess, itertools, time
 from decimal import Decimal
@@ -216,6 +219,18 @@ def corpus_jobs():
     jobs.append(dict(source="design", design=d))
     jobs.append(dict(source="design", design=d, tops=[0, 2], domain="multi"))
     jobs.append(dict(source="design", design=d, tops=[2, 0, 1]))
+    # strengthening round: minimised form of the seeded Call-sharing change (an importer cache keyed by Python-equal parameters):
+    # one cell in a leaf; in the top the same cell with the same numbers written differently, and once exactly as in the leaf
+    cell = dict(name="cell", domain="c11_pdk", spicetype=None, ports=[["a", 1, "INOUT"], ["b", 1, "INOUT"]], paramtype="dict")
+    mk = lambda nm, m, w: dict(name=nm, kind="ext", ext=0, params=[["m", m], ["w", w], ["mode", ["str", "fast"]]])
+    jobs.append(dict(source="insts", name="Top", domain="c11_demo_c", exts=[cell], mods=[
+        dict(name="Leaf", insts=[mk("x0", ["int", 2], P("1500", "MILLI"))], uses=[]),
+        dict(name="Top", insts=[mk("x1", ["float", (2.0).hex()], P("1500", "MILLI")), mk("x2", ["int", 2], P("1.5", "UNIT")),
+                                mk("x3", ["int", 2], P("1500", "MILLI"))], uses=[0])]))
+    jobs.append(dict(source="insts", name="T", exts=[], mods=[
+        dict(name="T", insts=[dict(name="r0", kind="prim", prim="IdealResistor", params=[["r", P("1.5", "UNIT")]]),
+                              dict(name="r1", kind="prim", prim="IdealResistor", params=[["r", P("1500", "MILLI")]]),
+                              dict(name="r2", kind="prim", prim="IdealResistor", params=[["r", P("1.50", "UNIT")]])], uses=[])]))
     return jobs
 
 
